@@ -19,7 +19,13 @@ let bytes_of_hex s =
 let split s = L.filter (fun x -> x <> "") (St.split_on_char ' ' s)
 
 (* ---------------- C05 ---------------- *)
-let msg_bytes len start = L.init len (fun k -> ((start + k) mod 127) + 1)
+let msg_bytes len start =
+  if start >= 1000 then begin
+    let ch = (match start - 1000 with 0 -> [0xc3; 0xa9] | 1 -> [0xe2; 0x82; 0xac] | _ -> [0xf0; 0x9f; 0x98; 0x80]) in
+    let k = L.length ch in
+    let pad = len mod k in
+    L.init len (fun i -> if i < pad then 0x78 else L.nth ch ((i - pad) mod k))
+  end else L.init len (fun k -> ((start + k) mod 127) + 1)
 let rec take n l = if n <= 0 then [] else match l with [] -> [] | x :: r -> x :: take (n-1) r
 
 let c05 ic =
@@ -260,8 +266,9 @@ let c01 ic =
     let opl = L.rev !ops in
     let fuel = nat_of_int (4 * L.length bs + 64) in
     let has_api = L.exists (function `A _ -> true | `R _ -> false) opl in
-    (* model: step by step *)
+    (* model: step by step (not on the `huge` class: the list-based model is quadratic; those cases are decided against the spec) *)
     let st = ref ReadRun.rinit in
+    if !cls = "huge" then Printf.printf "M %d NOMODEL\n" !id else
     L.iter (fun op ->
       match op with
       | `R rop ->
